@@ -358,8 +358,13 @@ class Verdict:
             os.makedirs(REPLAYS, exist_ok=True)
             path = os.path.join(REPLAYS, "%s_%s_%d.json" % (self.prop, self.tier, self.seed))
             with open(path, "w") as fh:
-                json.dump({"property": self.prop, "tier": self.tier, "seed": self.seed,
-                           "violations": self.violations[:200], "total": len(self.violations)}, fh, indent=1)
+                classes = {}
+                for vv in self.violations:
+                    ck = "%s/%s" % (vv["what"], vv["key"].get("unit", vv["key"].get("op", "")))
+                    classes[ck] = classes.get(ck, 0) + 1
+                json.dump({"property": self.prop, "tier": self.tier, "seed": self.seed, "classes": classes,
+                           "violations": self.violations[:200], "total": len(self.violations),
+                           "how_to_replay": "bin/check replay --replay <this file> re-runs the check of this property with the same tier and seed against /repo's current tree"}, fh, indent=1)
             for v in self.violations[:5]:
                 log("violation:", json.dumps(v)[:600])
             print("VIOLATION property=%s replay=%s" % (self.prop, path))
